@@ -505,6 +505,8 @@ var kvModel = porcupine.Model{
 		case "get":
 			v, ok := m[in.key]
 			return ok == out.found && (!ok || v == out.val), state
+		case "getbad":
+			return !out.found, state // absent or undecodable: an error either way, and no effect
 		case "put":
 			m[in.key] = in.val
 			return true, enc()
@@ -524,7 +526,8 @@ var kvModel = porcupine.Model{
 }
 
 func c20StorePrograms(c *core.Ctx, note func(sched.Stats)) {
-	alphabet := []kvIn{{"get", "k1", ""}, {"get", "k2", ""}, {"put", "k1", "v1"}, {"put", "k1", "v2"}, {"put", "k2", "v1"}, {"delete", "k1", ""}, {"list", "", ""}}
+	// "getbad" reads k1 into a destination the stored JSON cannot be decoded into: the error path of Get
+	alphabet := []kvIn{{"get", "k1", ""}, {"get", "k2", ""}, {"getbad", "k1", ""}, {"put", "k1", "v1"}, {"put", "k1", "v2"}, {"put", "k2", "v1"}, {"delete", "k1", ""}, {"list", "", ""}}
 	var seqs [][]kvIn
 	maxOps := 2
 	if c.Thorough() {
@@ -567,6 +570,10 @@ func c20StorePrograms(c *core.Ctx, note func(sched.Stats)) {
 							var v string
 							err := store.Get(in.key, &v)
 							out = kvOut{found: err == nil, val: v}
+						case "getbad":
+							var n int
+							err := store.Get(in.key, &n)
+							out = kvOut{found: err == nil}
 						case "put":
 							store.Put(in.key, in.val)
 						case "delete":
